@@ -38,9 +38,15 @@ def aiptw_cells(chk, drv, df, covs, ytype, wcol, cf, dsid, rec, rng=None):
     ref = {}
     for side, subs in (('outcome', gen.submodels(covs)), ('treatment', gen.submodels(covs, 'A'))):
         for sub in subs:
-            a = AIPTW(df[cols], exposure='A', outcome='Y', weights=wcol)
+            reuse = rng is not None and 'obj' in ref and rng.uniform() < 0.5
+            a = ref['obj'] if reuse else AIPTW(df[cols], exposure='A', outcome='Y', weights=wcol)
+            ref['obj'] = a     # about half of the specifications are made on an object that was already specified and fitted
             # a bound that truncates nothing is only meaningful when the treatment model is the saturated one
             bnd = unreached_bound(rng, df, covs, wcol) if (rng is not None and side == 'treatment') else False
+            if rng is not None and side == 'outcome' and rng.uniform() < 0.5:
+                # outcome model saturated: the treatment probabilities may be ANY non-zero numbers (aipw_dr_outcome), so
+                # a truncation that really bites, symmetric or asymmetric (lo != 1-hi), must change nothing
+                bnd = [[0.3, 0.6], [0.45, 0.9], 0.4][int(rng.integers(0, 3))]
             a.exposure_model(gen.sat_cov(covs) if side == 'treatment' else sub, bound=bnd, print_results=False)
             a.outcome_model(gen.sat_out(covs) if side == 'outcome' else sub, continuous_distribution=dist,
                             print_results=False)
@@ -58,7 +64,8 @@ def aiptw_cells(chk, drv, df, covs, ytype, wcol, cf, dsid, rec, rng=None):
                     ref['q'] = full.df['_pY1_'].values.copy()
                 wrong = float(np.max(np.abs(a.df['_pY1_'].values - ref['q'])))
             case = {'estimator': 'AIPTW', 'saturated': side, 'other_model': sub, 'outcome': ytype, 'weights': wcol,
-                    'bound_unreached': bnd, 'misspecification': wrong, 'impl': got, 'want': want, 'data': rec}
+                    'object_reused': bool(reuse),
+                    'bound': bnd, 'misspecification': wrong, 'impl': got, 'want': want, 'data': rec}
             chk.case(case, (dsid, 'AIPTW', side, sub) if wrong > 1e-3 else None,
                      sample={k: v for k, v in case.items() if k != 'data'} if chk.evals % 29 == 0 else None)
             chk.count('AIPTW/%s-saturated/%s' % (side, ytype))
@@ -93,15 +100,19 @@ def tmle_cells(chk, df, covs, ytype, cf_raw, dsid, rec, rng=None):
         want = c01.measures(cf[('population', 1)], cf[('population', 0)], ytype)
         for side, subs in (('outcome', gen.submodels(covs)), ('treatment', gen.submodels(covs, 'A'))):
             for sub in subs:
-                t = TMLE(df[cols], exposure='A', outcome='Y', continuous_bound=cb)
+                reuse = rng is not None and ('tmle', cb) in rec and rng.uniform() < 0.5
+                t = rec[('tmle', cb)] if reuse else TMLE(df[cols], exposure='A', outcome='Y', continuous_bound=cb)
+                rec[('tmle', cb)] = t
                 bnd = unreached_bound(rng, df, covs, None) if (rng is not None and side == 'treatment') else False
+                if rng is not None and side == 'outcome' and rng.uniform() < 0.5:
+                    bnd = [[0.3, 0.6], [0.45, 0.9], 0.4][int(rng.integers(0, 3))]   # biting bound: tmle_dr_outcome holds for any g > 0
                 t.exposure_model(gen.sat_cov(covs) if side == 'treatment' else sub, bound=bnd, print_results=False)
                 t.outcome_model(gen.sat_out(covs) if side == 'outcome' else sub, print_results=False)
                 t.fit()
                 got = ({'RD': float(t.risk_difference), 'RR': float(t.risk_ratio), 'OR': float(t.odds_ratio)}
                        if ytype == 'binary' else {'ATE': float(t.average_treatment_effect)})
-                case = {'estimator': 'TMLE', 'saturated': side, 'other_model': sub, 'outcome': ytype,
-                        'continuous_bound': cb, 'bound_unreached': bnd, 'impl': got, 'want': want, 'data': rec}
+                case = {'estimator': 'TMLE', 'saturated': side, 'other_model': sub, 'outcome': ytype, 'object_reused': bool(reuse),
+                        'continuous_bound': cb, 'bound': bnd, 'impl': got, 'want': want, 'data': {k: v for k, v in rec.items() if isinstance(k, str)}}
                 chk.case(case, (dsid, 'TMLE', side, sub, cb) if rec['_nontrivial'] else None)
                 chk.count('TMLE/%s-saturated/%s' % (side, ytype))
                 for k, v in got.items():
@@ -137,6 +148,14 @@ def aipsw_cells(chk, drv, rng, tier):
                                 e.treatment_model(sc if side == 'weights' else sub, stabilized=stab, print_results=False)
                             e.outcome_model(gen.sat_out(covs) if side == 'outcome' else sub, print_results=False)
                             e.fit()
+                            first = (float(e.risk_difference), float(e.risk_ratio))
+                            e.fit()       # history: a second fit() of the same specification changes nothing
+                            chk.d(close(e.risk_difference, first[0], rtol=1e-12, atol=1e-14) and
+                                  close(e.risk_ratio, first[1], rtol=1e-12, atol=1e-14),
+                                  'AIPSW: a second fit() on the same object reproduces the first',
+                                  {'estimator': 'AIPSW', 'saturated': side, 'other_model': sub, 'generalize': g,
+                                   'stabilized': stab, 'treatment_model': treat, 'first': first,
+                                   'second': [float(e.risk_difference), float(e.risk_ratio)], 'data': rec})
                             want_rd = float(cf[(g, 1)] - cf[(g, 0)])
                             want_rr = float(cf[(g, 1)] / cf[(g, 0)])
                             case = {'estimator': 'AIPSW', 'saturated': side, 'other_model': sub, 'generalize': g,
